@@ -258,7 +258,7 @@ func H_C04_Tree(shape int) {
 // shapes: (sequence of 3 (thorough: 4) operations out of 5 kinds) x PrepareStmt x write kind
 func N_C04_Manual(tier int) int {
 	if tier > 0 {
-		return 4 * 625
+		return 2*125 + 4*625
 	}
 	return 2 * 125
 }
@@ -269,9 +269,6 @@ func H_C04_Manual(shape int) {
 		// thorough-only shapes are numbered after the quick ones
 		shape -= 2 * 125
 		nops, nseq = 4, 625
-		if shape >= 4*625-2*125 {
-			return
-		}
 	}
 	prepare := (shape/nseq)&1 != 0
 	create := (shape/nseq)&2 != 0
